@@ -43,12 +43,23 @@ static struct {
     scpi_number_t num; scpi_bool_t b;
 } res;
 
-static scpi_result_t h_i32(scpi_t * c) { res.called++; res.ret = SCPI_ParamInt32(c, &res.i32, TRUE); return res.ret ? SCPI_RES_OK : SCPI_RES_ERR; }
-static scpi_result_t h_u32(scpi_t * c) { res.called++; res.ret = SCPI_ParamUInt32(c, &res.u32, TRUE); return res.ret ? SCPI_RES_OK : SCPI_RES_ERR; }
-static scpi_result_t h_i64(scpi_t * c) { res.called++; res.ret = SCPI_ParamInt64(c, &res.i64, TRUE); return res.ret ? SCPI_RES_OK : SCPI_RES_ERR; }
-static scpi_result_t h_u64(scpi_t * c) { res.called++; res.ret = SCPI_ParamUInt64(c, &res.u64, TRUE); return res.ret ? SCPI_RES_OK : SCPI_RES_ERR; }
-static scpi_result_t h_flt(scpi_t * c) { res.called++; res.ret = SCPI_ParamFloat(c, &res.f, TRUE); return res.ret ? SCPI_RES_OK : SCPI_RES_ERR; }
-static scpi_result_t h_dbl(scpi_t * c) { res.called++; res.ret = SCPI_ParamDouble(c, &res.d, TRUE); return res.ret ? SCPI_RES_OK : SCPI_RES_ERR; }
+/* every typed reader has three public entry points that must decode alike: SCPI_Param<T>, SCPI_Parameter + SCPI_ParamTo<T>,
+   and SCPI_ParamArray<T> with room for one element; the case number selects one (variant 0, 1, 2) */
+static int variant;
+#define READER(name, T, field) \
+static scpi_result_t name(scpi_t * c) { \
+    scpi_parameter_t p; size_t cnt = 0; \
+    res.called++; \
+    if (variant == 1) res.ret = SCPI_Parameter(c, &p, TRUE) && SCPI_ParamTo##T(c, &p, &res.field); \
+    else if (variant == 2) res.ret = SCPI_ParamArray##T(c, &res.field, 1, &cnt, SCPI_FORMAT_ASCII, TRUE) && cnt == 1; \
+    else res.ret = SCPI_Param##T(c, &res.field, TRUE); \
+    return res.ret ? SCPI_RES_OK : SCPI_RES_ERR; }
+READER(h_i32, Int32, i32)
+READER(h_u32, UInt32, u32)
+READER(h_i64, Int64, i64)
+READER(h_u64, UInt64, u64)
+READER(h_flt, Float, f)
+READER(h_dbl, Double, d)
 static scpi_result_t h_num(scpi_t * c) { res.called++; res.ret = SCPI_ParamNumber(c, scpi_special_numbers_def, &res.num, TRUE); return res.ret ? SCPI_RES_OK : SCPI_RES_ERR; }
 static scpi_result_t h_bool(scpi_t * c) { res.called++; res.ret = SCPI_ParamBool(c, &res.b, TRUE); return res.ret ? SCPI_RES_OK : SCPI_RES_ERR; }
 
@@ -243,6 +254,7 @@ static void run_case(long line, const char * js) {
         const char * rd = rds[r];
         int isint = !strcmp(rd, "I32") || !strcmp(rd, "U32") || !strcmp(rd, "I64") || !strcmp(rd, "U64");
         n_runs++;
+        variant = (int) ((line + r) % 3);
         execute(rd, lb, nlit);
         if (verbose) {
             printf("  %-4s input=%d called=%d ret=%d errs=%d", rd, input_ret, res.called, res.ret, nerrs);
